@@ -218,10 +218,11 @@ def r4(idx, rep):
     # clear_errors visits every expression unconditionally
     fce = idx.method("Matcher", "clear_errors")
     rep.analysed(fce)
-    body = [s for s in fce.node.body if not (isinstance(s, ast.Expr) and isinstance(s.value, ast.Constant))]
-    okc = (len(body) == 1 and isinstance(body[0], ast.For) and unparse(body[0].iter) == "self.expressions"
-           and len(body[0].body) == 1 and isinstance(body[0].body[0], ast.Expr) and call_name(body[0].body[0].value) == "handle_errors_if")
-    rep.check(okc, "R4", f"{fce.file}::Matcher.clear_errors visits every expression", unparse(fce.node)[:200], K.where(fce, fce.node))
+    seen = []
+    it = Interp(idx, types={"self": "Matcher"}, unknown_calls="residual", handlers={".handle_errors_if": lambda i, c, r, a, k: seen.append(r.name)})
+    ps = it.run_all(fce, store={"self.expressions": [[Obj("e0"), None], [Obj("e1"), True], [Obj("e2"), False]]})
+    okc = len(ps) == 1 and ps[0].result[0] == "return" and seen == ["e0", "e1", "e2"]
+    rep.check(okc, "R4", f"{fce.file}::Matcher.clear_errors visits every expression", f"three expressions (memo None/True/False): handle_errors_if reached {seen}; every expression once, whatever its memoised vote", K.where(fce, fce.node))
     # Expression.handle_errors_if hands every collected exception to ErrorHandler.handle_error
     fh = idx.method("Expression", "handle_errors_if")
     rep.analysed(fh)
